@@ -46,5 +46,101 @@ def run(ctx, quick, broken, janet, scratch):
         ok, log = ctx.leanchecker("JanetModel.Props.C15")
         if not ok:
             broken.append("leanchecker JanetModel.Props.C15: " + log[-300:])
-    ctx.driver()
+    exe = ctx.driver()
+    if exe:
+        try:
+            cov.update(correspondence(ctx, quick, broken, janet, scratch, exe, tree))
+        except ExtractError as e:
+            msg = "translator (mnemonics / names): %s" % e
+            broken.append(msg)
+            ctx.broken.append(msg)
     return cov
+
+
+MOVES = {"ldi", "ldc", "ldn", "ldt", "ldf", "lds", "movn", "movf", "ret", "retn"}
+
+
+def real_ops(opsfield, mnem):
+    out = []
+    for ins in [x for x in opsfield.split(",") if x]:
+        parts = ins.split(":")
+        if parts[0] in MOVES:
+            continue
+        jop, ty = mnem.get(parts[0], ("?" + parts[0], ""))
+        if ty in ("JINT_SSI", "JINT_SSU"):
+            # janet_instructions[] types the unsigned-shift immediate as SSU: disasm prints the byte unsigned
+            v = int(parts[-1])
+            out.append("%s:%d" % (jop, v - 256 if ty == "JINT_SSU" and v >= 128 else v))
+        else:
+            out.append(jop)
+    return ",".join(out)
+
+
+def correspondence(ctx, quick, broken, janet, scratch, exe, tree):
+    """(D) model vs implementation: emitted opcode/immediate sequence (Spec.emitInline vs the real compiler's disasm),
+    outcome of the inline call (Spec.evalInline vs the VM), outcome of the generic call (Spec.evalGeneric vs the template)."""
+    import importlib.util, re, concurrent.futures as cf
+    from vlib.core import run_cmd
+    here = os.path.dirname(os.path.abspath(__file__))
+    spec = importlib.util.spec_from_file_location("c15_gen2", os.path.join(here, "gen.py"))
+    gen = importlib.util.module_from_spec(spec)
+    spec.loader.exec_module(gen)
+    names = gen_cfuns.variadic_names(tree)
+    mnem = gen_cfuns.mnemonics(tree)
+    rng = ctx.rng.fork("model")
+    cases = gen.model_cases(rng, names, 6 if quick else 60)
+    pre = open(os.path.join(here, "routes.janet")).read() + gen.PRELUDE_DEFS + open(os.path.join(here, "emit.janet")).read()
+    jobs = 8
+    chunks = [list(range(i, len(cases), jobs)) for i in range(jobs)]
+    env = dict(os.environ, ASAN_OPTIONS="detect_leaks=0:abort_on_error=0")
+
+    def one(k):
+        p = os.path.join(scratch, "emit-%d.janet" % k)
+        with open(p, "w") as f:
+            f.write(pre + "\n" + "\n".join(gen.model_janet_line(i, cases[i]) for i in chunks[k]) + "\n(file/flush stdout)\n")
+        rc, out, err = run_cmd([janet, p], timeout=600, env=env)
+        return rc, out.decode(errors="replace"), err.decode(errors="replace")
+    impl = {}
+    crashed = []
+    with cf.ThreadPoolExecutor(jobs) as ex:
+        for k, (rc, out, err) in enumerate(ex.map(one, range(jobs))):
+            for line in out.splitlines():
+                m = re.match(r"^(\d+) OPS (.*) INLINE (.*) GENERIC (.*)$", line)
+                if m:
+                    # the Lean model's numbers are integers: no negative zero
+                    nz = lambda t: re.sub(r"(?<![0-9.e])-0(?![0-9.])", "0", t)
+                    impl[int(m.group(1))] = (real_ops(m.group(2), mnem), nz(m.group(3)), nz(m.group(4)))
+            if rc != 0:
+                crashed.append(err[-1500:])
+    model = ctx.model([gen.model_driver_line(c) for c in cases], exe=exe)
+    diffs = []
+    direct = []
+    for i, c in enumerate(cases):
+        if i not in impl:
+            continue
+        m = re.match(r"^ops=(.*) inline=(.*) generic=(.*)$", model[i])
+        if not m:
+            diffs.append({"case": gen.model_driver_line(c), "model": model[i], "impl": impl[i], "field": "driver"})
+            continue
+        for fld, a, b in (("ops", m.group(1), impl[i][0]), ("inline", m.group(2), impl[i][1]), ("generic", m.group(3), impl[i][2])):
+            if a != b:
+                diffs.append({"case": gen.model_driver_line(c), "janet": gen.model_janet_line(i, c), "field": fld, "model": a, "impl": b})
+        unary_minus = c[0] == "SUBTRACT" and len(c[2]) == 1
+        if impl[i][1] != impl[i][2] and not unary_minus:
+            direct.append((i, c, impl[i]))
+    if crashed:
+        msg = "model correspondence: implementation run crashed: %s" % crashed[0][-300:]
+        broken.append(msg)
+        ctx.broken.append(msg)
+    if diffs:
+        msg = "correspondence Spec model / implementation: %d differing fields, first %r" % (len(diffs), diffs[0])
+        broken.append(msg)
+        ctx.broken.append(msg)
+    for i, c, im in direct[:3]:
+        ctx.violation("route-diff:%s/%d:register-constant-pattern" % (c[1], len(c[2])),
+                      {"kind": "model-case", "janet": gen.model_janet_line(i, c), "inline_outcome": im[1], "generic_outcome": im[2], "emitted": im[0],
+                       "how": "append the janet line to harness/C15/routes.janet + gen.PRELUDE_DEFS + harness/C15/emit.janet and run it"},
+                      what="%s: inline call gives %s, generic call gives %s" % (gen.model_janet_line(i, c), im[1][:100], im[2][:100]))
+    return {"model_correspondence_cases": len(cases), "model_correspondence_completed": len(impl), "model_correspondence_diffs": len(diffs),
+            "model_correspondence_first_diffs": diffs[:5], "evaluations": 3 * len(impl), "distinct_nontrivial": len(set(gen.model_driver_line(c) for c in cases)),
+            "model_correspondence_samples": [gen.model_driver_line(cases[i]) for i in (1, len(cases) // 2, len(cases) - 1)]}
